@@ -390,13 +390,7 @@ def run(ctx):
             nc = ctx.rng.choice([2, 2, 3]); bg = ctx.rng.random() < 0.5
             order = list(range(nc)); ctx.rng.shuffle(order)
             seed, stick, ea = ctx.rng.randrange(10**9), ctx.rng.choice([0.0, 0.2, 0.5]), ctx.rng.randrange(0, nc)
-            rnd = random.Random(seed); last = [None]
-
-            def chooser(en, step):
-                if last[0] in en and rnd.random() < stick:
-                    return last[0]
-                last[0] = rnd.choice(en)
-                return last[0]
+            chooser = T.make_chooser(seed, stick)
             out = T.scenario(nc, bg, order, chooser, sync_timeout=None, timeouts=[None] * nc, eof_after=ea)
             case = {"threads": {"clients": nc, "bg": bg, "order": order, "seed": seed, "stick": stick, "eof_after": ea}}
             ctx.case(("threads-eof", nc, bg, seed, ea), nontrivial=True)
@@ -429,13 +423,7 @@ def replay(ctx, rep):
     if "threads" in cs:
         import random
         from harness import C13 as T
-        t = cs["threads"]; rnd = random.Random(t["seed"]); last = [None]
-
-        def chooser(en, step):
-            if last[0] in en and rnd.random() < t["stick"]:
-                return last[0]
-            last[0] = rnd.choice(en)
-            return last[0]
+        t = cs["threads"]; chooser = T.make_chooser(t["seed"], t["stick"])
         out = T.scenario(t["clients"], t["bg"], t["order"], chooser, sync_timeout=None, timeouts=[None] * t["clients"], eof_after=t["eof_after"])
         ctx.case(("replay", t["seed"]), True)
         if out["deadlock"]:
